@@ -716,26 +716,41 @@ class SymReal:
             t = z3.Real(t)
         self.t = t
 
+    def _num(self, o):
+        return isinstance(o, (int, float, bool, SymInt, SymReal, SymBool)) or isinstance(o, z3.ArithRef)
+
     def __add__(self, o):
+        if not self._num(o):
+            return NotImplemented
         return SymReal(z3.simplify(self.t + as_real(o)))
 
     __radd__ = __add__
 
     def __sub__(self, o):
+        if not self._num(o):
+            return NotImplemented
         return SymReal(z3.simplify(self.t - as_real(o)))
 
     def __rsub__(self, o):
+        if not self._num(o):
+            return NotImplemented
         return SymReal(z3.simplify(as_real(o) - self.t))
 
     def __mul__(self, o):
+        if not self._num(o):
+            return NotImplemented
         return SymReal(z3.simplify(self.t * as_real(o)))
 
     __rmul__ = __mul__
 
     def __truediv__(self, o):
+        if not self._num(o):
+            return NotImplemented
         return SymReal(self.t / as_real(o))
 
     def __rtruediv__(self, o):
+        if not self._num(o):
+            return NotImplemented
         return SymReal(as_real(o) / self.t)
 
     def __neg__(self):
